@@ -224,6 +224,8 @@ pub fn worker_main(args: &[String]) {
         };
         let mut j = 0u64;
         let mut queue: std::collections::VecDeque<Episode> = fam.into();
+        let mut fam_total = 0u64;
+        let mut fam_viol: Vec<(u64, Violation, Episode)> = Vec::new();
         while let Some(ep) = queue.pop_front() {
             status.set(1, j);
             // the CPU budget is per episode, not per family
@@ -242,22 +244,36 @@ pub fn worker_main(args: &[String]) {
                 let mut o = stdout.lock();
                 let _ = writeln!(o, "{}", json!({"t":"sample", "sample": sample_of(&ep)}));
             }
+            fam_total += 1;
             if let Some(v) = &out.violation {
-                viol_sent += 1;
-                if viol_sent > 12 {
-                    // enough explicit episodes from this worker; further ones are only counted
-                    j += 1;
-                    continue;
-                }
-                let mut o = stdout.lock();
-                let _ = writeln!(o, "{}", json!({"t":"v", "index": i, "sub": j, "violation": v, "episode": ep}));
-                let _ = o.flush();
+                fam_viol.push((j, v.clone(), ep.clone()));
             }
             // families that depend on a base run (C16) derive further episodes here
             for d in profiles::derive(&prop, tier, &ep, &out) {
                 queue.push_back(d);
             }
             j += 1;
+        }
+        // C07 is about configurations agreeing with each other: a violation that occurs with the
+        // same signature under EVERY configuration of the family is not a difference between
+        // configurations (it belongs to the property whose oracle raised it) -> inconclusive here
+        if prop == "C07" && fam_total >= 2 && fam_viol.len() as u64 == fam_total && fam_viol.iter().all(|x| x.1.signature == fam_viol[0].1.signature) && fam_viol[0].1.class != "reopen" {
+            agg.violations = agg.violations.saturating_sub(fam_total);
+            agg.inconclusive += fam_total;
+            if agg.inconclusive_samples.len() < 3 {
+                agg.inconclusive_samples.push(format!("same violation under every configuration: {}", fam_viol[0].1.signature));
+            }
+            fam_viol.clear();
+        }
+        for (sub, v, ep) in fam_viol.drain(..) {
+            viol_sent += 1;
+            if viol_sent > 12 {
+                // enough explicit episodes from this worker; further ones are only counted
+                continue;
+            }
+            let mut o = stdout.lock();
+            let _ = writeln!(o, "{}", json!({"t":"v", "index": i, "sub": sub, "violation": v, "episode": ep}));
+            let _ = o.flush();
         }
         agg.evaluations += 1;
         status.set(3, status.get(3) + 1);
